@@ -170,6 +170,10 @@ impl H263State {
                 .into_width_and_height()
                 .ok_or(Error::PictureFormatInvalid)?;
 
+            if output_dimensions.0 == 0 || output_dimensions.1 == 0 {
+                return Err(Error::PictureFormatInvalid);
+            }
+
             let mb_per_line = (output_dimensions.0 as f64 / 16.0).ceil() as usize;
             let mb_height = (output_dimensions.1 as f64 / 16.0).ceil() as usize;
 
